@@ -146,15 +146,16 @@ static inline void ref_mul(word *C, word const *A, int m, int l, int wa, word co
 /* ---- raw snapshots (every word of the allocation incl. padding words) ---- */
 #ifndef VERIF_H_SNAP
 #define VERIF_H_SNAP
+static inline wi_t vsnap_w(mzd_t const *M) { return mzd_is_windowed(M) ? M->width : M->rowstride; }
 static inline void vsnap(word *buf, mzd_t const *M) {
   for (rci_t i = 0; i < M->nrows; ++i)
-    for (wi_t j = 0; j < M->rowstride; ++j) buf[i * M->rowstride + j] = mzd_row_const(M, i)[j];
+    for (wi_t j = 0; j < vsnap_w(M); ++j) buf[i * vsnap_w(M) + j] = mzd_row_const(M, i)[j];
 }
 /* for windows: only the words the view covers (width words per row) */
 static inline int vsnap_same(word const *buf, mzd_t const *M) {
   word d = 0;
   for (rci_t i = 0; i < M->nrows; ++i)
-    for (wi_t j = 0; j < M->rowstride; ++j) d |= buf[i * M->rowstride + j] ^ mzd_row_const(M, i)[j];
+    for (wi_t j = 0; j < vsnap_w(M); ++j) d |= buf[i * vsnap_w(M) + j] ^ mzd_row_const(M, i)[j];
   return d == 0;
 }
 static inline void ref_set(word *ref, int w, int i, int j, word bit) {
@@ -192,8 +193,73 @@ static inline void vfill_mixed(mzd_t *M, int pat, int r0, int r1, int w0, int w1
     for (wi_t j = 0; j < M->width; ++j) {
       word c = vpat_word(pat, i, (int)j);
       word v = (i >= r0 && i < r1 && j >= w0 && j < w1) ? vin_word() : c;
-      if (j == M->width - 1) v &= M->high_bitmask;
+      if (j == M->width - 1) v = (v & M->high_bitmask) | (mzd_is_windowed(M) ? (row[j] & ~M->high_bitmask) : 0);
       row[j] = v;
+    }
+  }
+}
+
+/* ---- operands that may be views (C09): VIEWMASK bit idx set => operand idx is a window into a
+ * larger parent whose every word is symbolic.  Placement: row offset VROFF, word offset VOFF, parent
+ * VEXTRA columns wider than the view's right edge (0 = view ends at the parent's edge). */
+#ifndef VIEWMASK
+#define VIEWMASK 0
+#endif
+#ifndef VOFF
+#define VOFF 1
+#endif
+#ifndef VROFF
+#define VROFF 1
+#endif
+#ifndef VEXTRA
+#define VEXTRA 70
+#endif
+#define VMAXVIEWS 6
+#define VSNAPWORDS 1024
+typedef struct { mzd_t *P; mzd_t *W; int nr, nc; word snap[VSNAPWORDS]; } vview_t;
+static vview_t vviews[VMAXVIEWS];
+static int vnviews = 0;
+#define VOWNED(M) (!mzd_is_windowed(M))
+static inline mzd_t *vop_raw(int nr, int nc, int idx, int fill) {
+  if (!((VIEWMASK >> idx) & 1)) { mzd_t *M = mzd_init(nr, nc); if (fill) vfill(M); return M; }
+  vview_t *v = &vviews[vnviews++];
+  v->P = mzd_init(nr + VROFF + 1, 64 * VOFF + nc + VEXTRA);
+  vfill(v->P);
+  v->W = mzd_init_window(v->P, VROFF, 64 * VOFF, VROFF + nr, 64 * VOFF + nc);
+  v->nr = nr; v->nc = nc;
+  for (rci_t i = 0; i < v->P->nrows; ++i)
+    for (wi_t j = 0; j < v->P->rowstride; ++j) v->snap[i * v->P->rowstride + j] = mzd_row_const(v->P, i)[j];
+  return v->W;
+}
+static inline mzd_t *vop(int nr, int nc, int idx) { return vop_raw(nr, nc, idx, 1); }
+/* every parent bit outside each view is what it was when the view was created */
+static inline int vframes_ok(void) {
+  word d = 0;
+  for (int k = 0; k < vnviews; ++k) {
+    vview_t *v = &vviews[k];
+    wi_t w0 = VOFF, w1 = VOFF + (v->nc + 63) / 64; /* words [w0,w1) belong (partly) to the view */
+    for (rci_t i = 0; i < v->P->nrows; ++i)
+      for (wi_t j = 0; j < v->P->rowstride; ++j) {
+        word x = v->snap[i * v->P->rowstride + j] ^ mzd_row_const(v->P, i)[j];
+        int inrows = (i >= VROFF && i < VROFF + v->nr);
+        if (inrows && j >= w0 && j < w1) {
+          if (j == w1 - 1) x &= ~vmask(v->nc); else x = 0;
+        }
+        d |= x;
+      }
+  }
+  return d == 0;
+}
+#define VFRAMES() VASSERT(vframes_ok(), "no parent bit outside a view changed")
+
+/* copy the value of the owned matrix G into M (same dims), preserving foreign bits when M is a view */
+static inline void vcopy_into(mzd_t *M, mzd_t const *G) {
+  for (rci_t i = 0; i < M->nrows; ++i) {
+    word *d = mzd_row(M, i);
+    word const *g = mzd_row_const(G, i);
+    for (wi_t j = 0; j < M->width; ++j) {
+      if (j == M->width - 1) d[j] = (g[j] & M->high_bitmask) | (mzd_is_windowed(M) ? (d[j] & ~M->high_bitmask) : 0);
+      else d[j] = g[j];
     }
   }
 }
